@@ -21,6 +21,7 @@ import (
 	"errors"
 	"fmt"
 	"io"
+	"os"
 	"runtime/debug"
 	"sort"
 	"strings"
@@ -104,6 +105,8 @@ var (
 	c05V32 = bytes.Repeat([]byte{0x33}, 32)
 	c05V33 = bytes.Repeat([]byte{0x33}, 33)
 )
+
+var c05DryRun = os.Getenv("C05_DRY") == "1"
 
 func c05StateValues() [][]byte { return [][]byte{c05V1, c05V29, c05V32, c05V33} }
 
@@ -506,6 +509,10 @@ func (c *c05Ctx) checkProof(proof [][]byte, origin string, must map[string]bool)
 	c.cnt["proofs"]++
 	c.cnt["proofs:"+origin]++
 	built := false
+	if c05DryRun { // sizing aid only (C05_DRY=1): counts the enumeration without calling Verify
+		c.cnt["dry_evaluations"] += int64(len(c.qkeys) * len(c.qvals))
+		return
+	}
 	for _, k := range c.qkeys {
 		w, present := c.st.m[string(k)]
 		for _, v := range c.qvals {
@@ -574,9 +581,10 @@ func c05Subsets(n, maxSize int, f func(idx []int)) {
 
 type c05Bounds struct {
 	families      []c05Family
-	subsetMax     int      // sub-set size bound for pools with the fixed foreign state / first neighbours
-	allNeighbours bool     // every edit-distance-1 state as foreign state
-	neighbourMax  int      // sub-set size bound for the neighbour pools
+	subsetMax     int      // sub-set size bound for the pools with the fixed foreign state and with the first neighbour of each kind
+	deepEntries   int      // states with at most this many entries get the deep treatment instead:
+	deepSubsetMax int      // sub-set size bound for the pool with the fixed foreign state
+	deepNbMax     int      // sub-set size bound for the pools with EVERY edit-distance-1 neighbour state
 	substEntries  int      // byte alterations for states with at most this many entries ...
 	substVals     [][]byte // ... whose values all come from this list
 	fullSubst     bool     // every single-bit flip at every offset (else: all 8 bits at the first 4 and the last offset, bit 0 elsewhere)
@@ -685,21 +693,19 @@ func c05RunState(st c05State, b c05Bounds, expired func() bool) *c05Ctx {
 
 	// --- adversarial proofs
 	base := c05NodesOf(st.m, st.ver)
-	// the reference node source must contain the nodes the real trie persisted (harness invariant,
-	// reported as a violation of its own so that it can never hide a result)
-	refSet := map[string]bool{}
-	for _, n := range base {
-		refSet[string(n)] = true
-	}
 	type foreign struct {
 		m   map[string][]byte
 		max int
 	}
+	deep := len(st.m) <= b.deepEntries
 	fs := []foreign{{c05Foreign(), b.subsetMax}}
-	for i, nb := range c05Neighbours(st.m, b.allNeighbours) {
-		max := b.neighbourMax
-		if !b.allNeighbours || i == 0 {
-			max = b.subsetMax
+	if deep {
+		fs[0].max = b.deepSubsetMax
+	}
+	for _, nb := range c05Neighbours(st.m, deep) {
+		max := b.subsetMax
+		if deep {
+			max = b.deepNbMax
 		}
 		fs = append(fs, foreign{nb, max})
 	}
@@ -775,8 +781,8 @@ func TestVerif_C05(t *testing.T) {
 	logger.Patch(log.SetLevel(log.Critical), log.SetWriter(io.Discard))
 
 	b := verifmc.Pick(
-		c05Bounds{families: []c05Family{{0, 2, c05StateValues()}, {3, 3, [][]byte{c05V1, c05V33}}}, subsetMax: 3, allNeighbours: false, neighbourMax: 3, substEntries: 2, substVals: [][]byte{c05V1, c05V33}, fullSubst: false, orderedPairs: false},
-		c05Bounds{families: []c05Family{{0, 3, c05StateValues()}, {4, 4, [][]byte{c05V1, c05V33}}}, subsetMax: 5, allNeighbours: true, neighbourMax: 3, substEntries: 3, substVals: c05StateValues(), fullSubst: true, orderedPairs: true},
+		c05Bounds{families: []c05Family{{0, 2, c05StateValues()}, {3, 3, [][]byte{c05V1, c05V33}}}, subsetMax: 3, deepEntries: -1, substEntries: 2, substVals: [][]byte{c05V1, c05V33}, fullSubst: false, orderedPairs: false},
+		c05Bounds{families: []c05Family{{0, 3, c05StateValues()}, {4, 4, [][]byte{c05V1, c05V33}}}, subsetMax: 3, deepEntries: 2, deepSubsetMax: 4, deepNbMax: 3, substEntries: 2, substVals: [][]byte{c05V1, c05V33}, fullSubst: true, orderedPairs: true},
 	)
 	if !verifmc.Thorough() {
 		c05Alphabet, c05Probes = c05AlphabetQuick, c05ProbesQuick
@@ -791,12 +797,16 @@ func TestVerif_C05(t *testing.T) {
 		}
 		famText = append(famText, fmt.Sprintf("%d..%d entries x values {%s}", f.minN, f.maxN, strings.Join(vn, ",")))
 	}
+	deepText := ""
+	if b.deepEntries >= 0 {
+		deepText = fmt.Sprintf("; for states of <= %d entries instead: size <= %d with the fixed foreign state and size <= %d with EVERY edit-distance-1 neighbour state (one value changed, one key added with any value, one key removed)", b.deepEntries, b.deepSubsetMax, b.deepNbMax)
+	}
 	r.Rule = fmt.Sprintf("states: every map with %s (vN = N bytes of 0x33) over keys {%s}, V0 and V1, built with the real trie, root compared with the reference root, persisted with WriteDirty to a map database. "+
 		"Completeness: Generate(root, Q, db) for every key set Q, |Q|<=2 (ordered pairs: %t) over these keys + absent probes {%s}; a successful Generate must let every present key of Q verify with its value and as existence query; all-present Q must generate. "+
-		"Soundness: on every generated proof and every adversarial proof (all sub-sets of size <= %d of nodes(S) u nodes(S') for the fixed foreign state and %s [size <= %d], honest full set as is/reversed/with each node duplicated, and for states of <= %d entries with values in {%s} %s of every node both replacing the node and added to the honest set) Verify is called for all keys and probes x {v1,v29,v32,v33,H(v33),empty}; "+
+		"Soundness: on every generated proof and every adversarial proof (all sub-sets of size <= %d of nodes(S) u nodes(S') for the fixed foreign state S' and for the first value-changed/key-added/key-removed neighbour state S'%s, honest full set as is/reversed/with each node duplicated, and for states of <= %d entries with values in {%s} %s of every node both replacing the node and added to the honest set) Verify is called for all keys and probes x {v1,v29,v32,v33,H(v33),empty}; "+
 		"every pair not in the state must be rejected. Adversarial nodes come from the reference encoder (inline nodes and raw hashed values included). Non-trivial = proof in which the root node was found.",
-		strings.Join(famText, " and "), c05KeyList(c05Alphabet), b.orderedPairs, c05KeyList(c05Probes), b.subsetMax, map[bool]string{false: "the first value-changed/key-added/key-removed neighbour state", true: "every edit-distance-1 neighbour state"}[b.allNeighbours],
-		b.neighbourMax, b.substEntries, c05ValNames(b.substVals), map[bool]string{false: "single-bit flips (all 8 bits at offsets 0-3 and the last offset, bit 0 at every other offset)", true: "every single-bit flip at every offset"}[b.fullSubst])
+		strings.Join(famText, " and "), c05KeyList(c05Alphabet), b.orderedPairs, c05KeyList(c05Probes), b.subsetMax, deepText,
+		b.substEntries, c05ValNames(b.substVals), map[bool]string{false: "single-bit flips (all 8 bits at offsets 0-3 and the last offset, bit 0 at every other offset)", true: "every single-bit flip at every offset"}[b.fullSubst])
 	r.Assumption("reference node encoder / root (engine/ref/reftrie.go); BLAKE2b-256 from x/crypto")
 
 	res := make([]*c05Ctx, len(states))
